@@ -57,6 +57,15 @@ def wpat(n, wb):
         out.append(int.from_bytes(bytes([0x55]) * (wb * n), 'little'))
     return sorted(set(out))
 
+def wpick(n, wb, k):
+    """k patterns of wpat spread over the whole (sorted) list, the largest (all ones) always among them: a prefix of the sorted list
+    would hold small values only and never an all-ones word under an incoming carry"""
+    ps = wpat(n, wb)
+    if len(ps) <= k:
+        return ps
+    idx = sorted(set([0, 1, len(ps) - 1, len(ps) - 2] + [round(i * (len(ps) - 1) / (k - 1)) for i in range(k)]))
+    return [ps[i] for i in idx]
+
 def mods(n, wb, odd=False, crand=False):
     B = 1 << (8 * wb)
     if n == 0:
@@ -191,7 +200,7 @@ def _wwcmp2():
         ns = [0, 1, 2, 3, 5] if tier == 'quick' else list(range(0, 9))
         return [dict(n=n, m=m) for n in ns for m in ns]
     def tuples(sh, wb):
-        return [(a, b) for a in wpat(sh['n'], wb)[:7] for b in wpat(sh['m'], wb)[:7]]
+        return [(a, b) for a in wpick(sh['n'], wb, 7) for b in wpick(sh['m'], wb, 7)]
     def prep(L, A, sh): return (_wbuf(A, sh['n'], L.wbytes), _wbuf(A, sh['m'], L.wbytes))
     def run(L, A, sh, bufs, tup, sym, traced):
         _setw(bufs[0], tup[0], sh['n'], L.wbytes); _setw(bufs[1], tup[1], sh['m'], L.wbytes)
@@ -225,9 +234,9 @@ def _zzsum():
     def tuples(sh, wb):
         n = sh['n']; M = 1 << (8 * wb * n)
         out = []
-        ps = wpat(n, wb)
-        for a in ps[:8]:
-            for b in ps[:8]:
+        ps = wpick(n, wb, 8)
+        for a in ps:
+            for b in ps:
                 out.append(((a + b) % M, a, b))                 # equal modulo B^n (carry lost): header says a + b == c
                 out.append((((a + b) % M) ^ 1 if n else 0, a, b))
         return out
@@ -240,7 +249,7 @@ def _zzsum():
     def tuples2(sh, wb):
         n = sh['n']; M = 1 << (8 * wb * n); B = 1 << (8 * wb)
         out = []
-        for a in wpat(n, wb)[:10]:
+        for a in wpick(n, wb, 10):
             for w in (0, 1, B - 1):
                 out.append(((a + w) % M if n else 0, a, w)); out.append((((a + w) % M) ^ 1 if n else 0, a, w))
         return out
